@@ -286,6 +286,14 @@ def check_case(case, enforce_all=False):
         return out
     if not close(M_y, M_ref, "from_expr(expression)", "from_expr"):
         return out
+    # ... and with the operator list left to the library (find_operators)
+    try:
+        M_y2 = sem.space.nof_matrix(sem.NOF.from_expr(sem.sympy.sympify(e)))
+    except Exception as exc:  # noqa: BLE001
+        out.fail("exception", f"from_expr without an operator list raised {type(exc).__name__}: {str(exc)[:160]} on {show(tree)}")
+        return out
+    if not close(M_y2, M_ref, "from_expr(expression) with automatic operator list", "from_expr"):
+        return out
     # 3. conversion back
     try:
         back = X.as_expr()
